@@ -33,8 +33,8 @@ func init() {
 
 	lifeRule := "one run = one seeded execution of a real server (listener, accept path, 1-2 pollers) with one accepted connection: configuration (which callbacks, how many close callbacks, OnConnect behaviour, per-invocation handler script consume/gate/echo/close/panic), a raw peer that writes a chunked stream with pauses and then stays/closes/half-closes/resets, 0-3 user closers (one may Detach), optional Shutdown; non-trivial = a connection was accepted and the peer wrote, closed or a user closer acted; distinct = distinct hash of the step trace"
 	lifeAssume := []string{"the handler consumes at least one byte per invocation or closes the connection (documented OnRequest contract)", "one reader (the handler) per connection", "AF_UNIX stream sockets on the real kernel", "yields at atomics, syscalls, channel/mutex operations, spawns"}
-	addPlan(&propertyPlan{ID: "C05", Scenarios: []scenarioPlan{{Name: "c05_teardown", Quick: 40000, Thorough: 2500000}, {Name: "c06_handler", Quick: 5000, Thorough: 250000}, {Name: "c09_callbacks", Quick: 5000, Thorough: 250000}}, Rule: lifeRule, Assume: lifeAssume, Real: commonReal, Stub: commonStub})
-	addPlan(&propertyPlan{ID: "C06", Scenarios: []scenarioPlan{{Name: "c06_handler", Quick: 40000, Thorough: 2500000}, {Name: "c05_teardown", Quick: 5000, Thorough: 250000}, {Name: "c09_callbacks", Quick: 5000, Thorough: 250000}}, Rule: lifeRule, Assume: lifeAssume, Real: commonReal, Stub: commonStub})
+	addPlan(&propertyPlan{ID: "C05", Scenarios: []scenarioPlan{{Name: "c05_teardown", Quick: 40000, Thorough: 2500000}, {Name: "c06_handler", Quick: 5000, Thorough: 250000}, {Name: "c09_callbacks", Quick: 5000, Thorough: 250000}, {Name: "c05_prepare", Quick: 8000, Thorough: 300000}}, Rule: lifeRule + "; c05_prepare: a server whose OnPrepare registers 1-3 close callbacks and then closes the connection itself, or whose registration with the poller fails (epoll_ctl ADD error), or neither, for 1-4 clients one after the other: every close callback exactly once, the descriptor closed, IsActive false, Shutdown returns", Assume: lifeAssume, Real: commonReal, Stub: commonStub})
+	addPlan(&propertyPlan{ID: "C06", Scenarios: []scenarioPlan{{Name: "c06_handler", Quick: 40000, Thorough: 2500000}, {Name: "c05_teardown", Quick: 5000, Thorough: 250000}, {Name: "c09_callbacks", Quick: 5000, Thorough: 250000}, {Name: "c06_late", Quick: 10000, Thorough: 500000}}, Rule: lifeRule + "; c06_late: a client connection (FD or dialled) without request handler whose peer sends 1-3 chunks and stays or closes, SetOnRequest called at a seeded moment (at once, after a pause, once all input is buffered, once the peer has hung up), a handler that takes 1, 4 or all bytes per call: every byte offered, serially, before the close callbacks run", Assume: lifeAssume, Real: commonReal, Stub: commonStub})
 	addPlan(&propertyPlan{ID: "C09", Scenarios: []scenarioPlan{{Name: "c09_callbacks", Quick: 40000, Thorough: 2500000}, {Name: "c05_teardown", Quick: 5000, Thorough: 250000}, {Name: "c06_handler", Quick: 5000, Thorough: 250000}}, Rule: lifeRule, Assume: lifeAssume, Real: commonReal, Stub: commonStub})
 
 	addPlan(&propertyPlan{ID: "C08",
